@@ -185,3 +185,52 @@ Theorem c10_cli_single_reader : forall c tr s, traces_to c tr s ->
 Proof. exact CliC10.c10_cli_single_reader. Qed.
 Print Assumptions c10_cli_single_reader.
 End Cli.
+
+(* ------------------------------------------------------------------------------------------- *)
+(* B3 at byte level (wire/WireLink.v): what the server and client models pass to Send is, once encoded by
+   the wire model (jmessage.toJSON / jmessages.toJSON), ONE complete JSON-RPC message - a JSON object or a
+   non-empty array of objects - that is valid JSON and parses back to exactly those members.  Hypotheses:
+   what the environment supplies (handler results, pushed methods/params, callback outputs) is JSON of
+   bounded nesting (rsp_rt / req_rt / cbout_rt). *)
+From JV Require Json JsonProofs Wire WireProofs WireSpecs WireMore WireLink CliLemmas.
+Module Bytes10.
+Import Json JsonProofs Wire WireProofs WireSpecs WireMore WireLink.
+
+Theorem c10_server_records_are_messages : forall wild c s l s' os ok b rs,
+  SrvLemmas.reach c s -> SrvModel.step s l = Some (s', os) -> In (SrvModel.OSend ok b rs) os ->
+  rs <> [] /\
+  (Forall (rsp_rt wild) rs ->
+   exists bytes, enc_msgs b (map (jmsg_of_rsp wild) rs) = Some bytes /\
+     is_message_json bytes /\ Json.valid bytes = true /\
+     parse_msgs bytes = InMsgs (b || (1 <? length rs)%nat) (map (fun r => canon (jmsg_of_rsp wild r)) rs)).
+Proof. exact srv_send_bytes. Qed.
+Print Assumptions c10_server_records_are_messages.
+
+Theorem c10_server_pushes_are_messages : forall s l s' os ok id m p,
+  SrvModel.step s l = Some (s', os) -> In (SrvModel.OSendReq ok id m p) os ->
+  (id = [] \/ is_num_lit id = true) /\
+  (req_rt 0 m p ->
+   exists bytes, enc_msg (jmsg_of_req id m p) = Some bytes /\ is_message_json bytes /\ Json.valid bytes = true /\
+     parse_msgs bytes = InMsgs false [canon (norm (jmsg_of_req id m p))]).
+Proof. exact srv_sendreq_bytes. Qed.
+Print Assumptions c10_server_pushes_are_messages.
+
+Theorem c10_client_records_are_messages : forall c s l s' os ok batch ms,
+  CliLemmas.reach c s -> CliModel.step s l = Some (s', os) -> In (CliModel.OSendReq ok batch ms) os ->
+  ms <> [] /\ batch = negb (length ms =? 1)%nat /\
+  Forall (fun mem => fst (fst mem) = [] \/ is_num_lit (fst (fst mem)) = true) ms /\
+  (Forall (fun mem => req_rt 1 (snd (fst mem)) (snd mem)) ms ->
+   exists bytes, enc_msgs batch (map jmsg_of_mem ms) = Some bytes /\
+     is_message_json bytes /\ Json.valid bytes = true /\
+     parse_msgs bytes = InMsgs batch (map (fun mem => canon (norm (jmsg_of_mem mem))) ms)).
+Proof. exact cli_sendreq_bytes. Qed.
+Print Assumptions c10_client_records_are_messages.
+
+Theorem c10_client_callback_replies_are_messages : forall s l s' os ok id o,
+  CliModel.step s l = Some (s', os) -> In (CliModel.OSendRsp ok id o) os ->
+  id_rt' id -> cbout_rt o ->
+  exists bytes, enc_msg (jmsg_of_cbout id o) = Some bytes /\ is_message_json bytes /\ Json.valid bytes = true /\
+    parse_msgs bytes = InMsgs false [canon (jmsg_of_cbout id o)].
+Proof. exact cli_sendrsp_bytes. Qed.
+Print Assumptions c10_client_callback_replies_are_messages.
+End Bytes10.
